@@ -263,3 +263,29 @@ fn c02_canary_select_symbol_error_and_dynamic_paths_reachable() {
     assert!(got.is_some(), "canary: the duplicate-strong error must be reachable");
     assert!(got != Some(1), "canary: picking the second candidate must be reachable");
 }
+
+// SymbolStrength::of on an ELF symbol-table entry, for every st_info / st_shndx / st_size
+// (gABI: STB_WEAK = 2, STB_GNU_UNIQUE = 10, SHN_COMMON = 0xfff2): a weak symbol is Weak whatever
+// its section, a common symbol carries its size (the "largest common wins" key), a GNU-unique
+// symbol is GnuUnique, everything else that is defined is Strong.
+#[kani::proof]
+fn c02_symbol_strength_of_reads_binding_and_common_size() {
+    let mut sym: crate::elf::SymtabEntry = unsafe { core::mem::zeroed() };
+    sym.st_info = kani::any();
+    sym.st_shndx.set(object::LittleEndian, kani::any());
+    let size: u64 = kani::any();
+    sym.st_size.set(object::LittleEndian, size);
+    let got = SymbolStrength::of(&sym);
+    let bind = sym.st_info >> 4;
+    let shndx = sym.st_shndx.get(object::LittleEndian);
+    let want = if bind == 2 {
+        SymbolStrength::Weak
+    } else if shndx == 0xfff2 {
+        SymbolStrength::Common(size)
+    } else if bind == 10 {
+        SymbolStrength::GnuUnique
+    } else {
+        SymbolStrength::Strong
+    };
+    assert!(got == want, "symbol strength differs from the ELF binding / SHN_COMMON rules");
+}
